@@ -1084,15 +1084,24 @@ fn gen_rec(r: &mut Rng, kind: &str, specs: &[String]) -> String {
                     let ts = if !CHRONO && r.chance(1, 4) {
                         small_value(r)
                     } else {
-                        format!(
-                            "{:04}-{:02}-{:02}T{:02}:{:02}:{:02}Z",
+                        let base = format!(
+                            "{:04}-{:02}-{:02}T{:02}:{:02}:{:02}",
                             r.range(1970, 2100),
                             r.range(1, 12),
                             r.range(1, 28),
                             r.below(24),
                             r.below(60),
                             r.below(60)
-                        )
+                        );
+                        // valid RFC 3339 in other spellings than MPD's: the value must be kept as sent
+                        match r.below(9) {
+                            0 => format!("{base}+02:00"),
+                            1 => format!("{base}-13:00"),
+                            2 => format!("{base}.5Z"),
+                            3 => format!("{base}.123456+00:00"),
+                            4 => format!("{}z", base.replace('T', "t")),
+                            _ => format!("{base}Z"),
+                        }
                     };
                     format!("{}/{}", hx(&small_value(r)), hx(&ts))
                 })
